@@ -235,6 +235,13 @@ def gen_driver(inv, T, tier):
                 k += 1
                 args = ", ".join("mk<%s>()" % _subst(p, {"NumericType": T}) for p in f["params"])
                 w("void drv_f%d() { (void)%s<%s>(%s); }" % (k, qn, T, args))
+            elif tnames == ["Enumeration"] and T == "double":
+                for en in sorted(enums):
+                    if en.startswith("PhQ::Dimension"):
+                        continue
+                    k += 1
+                    args = ", ".join("mk<%s>()" % _subst(p, {"Enumeration": en}) for p in f["params"])
+                    w("void drv_f%d() { (void)%s<%s>(%s); }" % (k, qn, en, args))
             continue
         if tnames == ["NumericType"]:
             combos = [{"NumericType": T}]
